@@ -77,6 +77,7 @@ fn fresh_method_key(rng: &mut Rng, cfg: &GenCfg, taken: &dyn Fn(&MemberKey) -> b
     loop { let k = (format!("zm{}", rng.below(1_000_000)), "()V".to_string()); if !taken(&k) { return k; } }
 }
 fn fresh_index(rng: &mut Rng, taken: &dyn Fn(usize) -> bool) -> usize {
+    if rng.chance(1, 20) { let i = *rng.pick(&[127usize, 128, 255, 256, 257, 300, 65535, 65536]); if !taken(i) { return i; } }
     for _ in 0..8 { let i = rng.below(12); if !taken(i) { return i; } }
     loop { let i = rng.below(100_000); if !taken(i) { return i; } }
 }
